@@ -233,6 +233,12 @@ func EscapeIdent(s string) string {
 	replace := false
 	extra := 0
 	for i := 0; i < len(s); i++ {
+		if i == 0 && strings.IndexByte(decimal, s[i]) != -1 && strings.Trim(s, decimal) != "" {
+			// An unquoted identifier may not start with a digit (a leading digit
+			// starts an ID); e.g. the name "0x1" is written `"0x1"`. Names
+			// consisting only of digits are IDs and handled by the callers.
+			replace = true
+		}
 		if strings.IndexByte(tail, s[i]) == -1 {
 			// Check if a replacement is required.
 			//
